@@ -124,7 +124,11 @@ def main():
                                         "traces recorded from the real crate by /verif/harness"}],
          "checks": checks,
          "notes": "Model-based verification with an explicit TLA+ specification; see DESIGN.md. Genuine defects found by the checks were "
-                  "repaired in /repo as separate 'fix:' commits and are listed in known_findings.json under 'fixed'.",
+                  "repaired in /repo as separate 'fix:' commits and are listed in known_findings.json under 'fixed'; three known findings (KF1 C07 PFE range, "
+                  "KF2 C09 LaguerreRSI on a constant tail, KF3 C09 TrendFlex/ReFlex from N=436 on a constant tail) are attributed by the specification "
+                  "through clause names. Besides the core scope each claim describes, most checks carry the cross-cutting scopes of DESIGN.md section 5: "
+                  "chains over inner views, power-of-two units (2^-70 / 2^60), the f32 instantiation, the release build, dense window-length sweeps, "
+                  "signed zeros and streams of up to thirty decades of dynamic range where the statement speaks of ulps.",
          "not_applicable": [{"property_id": p, "reason": "check under construction in this session (planned: DESIGN.md section 5); not claimed yet"}
                             for p in props if p not in CLAIMS]}
     json.dump(m, open(os.path.join(V, "MANIFEST.json"), "w"), indent=1)
